@@ -212,6 +212,12 @@ pub fn redex_bodies(k: usize) -> Vec<(String, &'static str)> {
             v.push((format!("PUSH({x}) ~ (&(POP ~ {y}) ~ PEEK | {y})"), "restore"));
             v.push((format!("PUSH({x}) ~ (!(DROP ~ {y}) ~ PEEK)"), "restore"));
             v.push((format!("PUSH({x}) ~ ((DROP ~ {y})* ~ PEEK_ALL)"), "restore"));
+            // a multi-entry stack match that fails part-way, followed by more parsing
+            v.push((format!("PUSH({x}) ~ PUSH({y}) ~ (PEEK_ALL | {x}) ~ ANY?"), "restore"));
+            v.push((format!("PUSH({x}) ~ PUSH({y}) ~ PEEK[0..2]? ~ ANY*"), "restore"));
+            v.push((format!("PUSH({x}) ~ PUSH({y}) ~ PEEK[..]* ~ ANY ~ EOI"), "restore"));
+            v.push((format!("PUSH({x}) ~ PUSH({y}) ~ (PEEK[-2..] ~ \"x\" | ANY ~ {y})"), "restore"));
+            v.push((format!("PUSH({x}) ~ PUSH({y}) ~ PUSH({x}) ~ (!PEEK_ALL ~ ANY)* ~ PEEK[1..]?"), "restore"));
         }
         // unroll
         for (i, rep) in ["{1}", "{2}", "{3}", "{1,}", "{2,}", "{,1}", "{,2}", "{,3}", "{1,1}", "{1,2}", "{1,3}", "{2,3}", "{0,2}", "+"].iter().enumerate() {
@@ -285,3 +291,12 @@ pub fn stack_transaction_bodies() -> Vec<String> {
     v
 }
 pub const STACK_TX_EXTRA_RULES: &str = " d2 = _{ DROP ~ DROP } p2 = _{ POP ~ POP } dp = _{ DROP ~ POP } q1 = _{ PUSH(\"b\") ~ d2 } q2 = _{ PUSH(\"b\") ~ p2 } q3 = _{ PUSH(\"a\") ~ dp } q4 = { PUSH(\"b\") ~ PUSH(\"a\") ~ d2 ~ DROP } ";
+
+/// Many-rules slice (C08 / C15): bodies over references to a family of small rules of every
+/// modifier, so that several reportable rules are tried at the same position, nested to depth 3.
+pub const MANY_RULES_EXTRA: &str = " a = { \"a\" } b = { \"b\" } c = { a ~ b } d = _{ a | b } e = @{ \"a\" ~ \"b\" } f = ${ b ~ a? } g = { !a ~ ANY } many = { a | b | c | e | g } mid = { many ~ \"!\" } top = { a | b | mid } ";
+pub fn many_rules_bodies(max: usize) -> Vec<String> {
+    let leaves = ["a", "b", "c", "d", "e", "f", "g", "many", "mid", "top", "\"a\"", "\"!\""];
+    let unary = [("(", ")?"), ("(", ")*"), ("!(", ")"), ("&(", ")")];
+    bodies_by_size(&leaves, &unary, max).into_iter().flatten().collect()
+}
